@@ -600,6 +600,9 @@ func (ex *Exec) byContract(fr *Frame, st *State, ci *ssa.Call, ct *Contract, key
 		if c.Cfg != "" && c.Cfg != ex.p.cfgName {
 			continue
 		}
+		if hasTag(c.Tags, "nocall") {
+			continue // a clause that is checked on the function but never assumed by callers (recorded findings)
+		}
 		ex.assume(st.pc, cpost.bool(c.Expr))
 	}
 	for _, c := range ct.Assumes {
@@ -853,4 +856,14 @@ func callOrdinal(fn *ssa.Function, ci *ssa.Call) (string, int) {
 		}
 	}
 	return name, 0
+}
+
+
+func hasTag(tags []string, t string) bool {
+	for _, x := range tags {
+		if x == t {
+			return true
+		}
+	}
+	return false
 }
